@@ -64,6 +64,10 @@ type modTarget struct {
 
 // evalModifies evaluates the modifies clauses in the (pre-)state of env.
 func (vc *VC) evalModifies(fc *FuncContract, env *Env) []modTarget {
+	return vc.evalModClauses(fc.Modifies, env)
+}
+
+func (vc *VC) evalModClauses(clauses []Clause, env *Env) []modTarget {
 	var out []modTarget
 	addCells := func(ref, idx string, t types.Type, what string) {
 		l := layout(t)
@@ -71,7 +75,7 @@ func (vc *VC) evalModifies(fc *FuncContract, env *Env) []modTarget {
 			out = append(out, modTarget{kind: "cells", heap: s.heap(), sort: s, ref: ref, lo: cellIdx(idx, i), n: 1, what: what})
 		}
 	}
-	for _, m := range fc.Modifies {
+	for _, m := range clauses {
 		switch e := m.E.(type) {
 		case Unary:
 			if e.Op != "*" {
@@ -193,6 +197,8 @@ func (vc *VC) havocTargets(st *State, targets []modTarget) {
 			st.H[t.heap] = vc.def(heapSort(t.sort), sto(st.H[t.heap], t.ref, nr), t.heap)
 		case "ghost":
 			st.H[t.heap] = vc.def(stateSorts[t.heap], sto(st.H[t.heap], t.ref, vc.fresh(ghostElemSort(t.heap), "hv")), t.heap)
+		case "object":
+			st.H[t.heap] = vc.def(heapSort(t.sort), sto(st.H[t.heap], t.ref, vc.fresh(rowSort(t.sort), "hvobj")), t.heap)
 		}
 	}
 }
@@ -222,6 +228,8 @@ func (vc *VC) frameGoals(old, cur *State, targets []modTarget) map[string]string
 				exc = append(exc, and(eq(r, t.ref), eq(i, t.lo)))
 			case "range":
 				exc = append(exc, and(eq(r, t.ref), app("bvsle", t.lo, i), app("bvslt", i, t.hi)))
+			case "object":
+				exc = append(exc, eq(r, t.ref))
 			}
 		}
 		goals[h] = implies(and(app("bvult", r, old.H["next"]), not(or(exc...))), eq(sel2(cur.H[h], r, i), sel2(old.H[h], r, i)))
@@ -273,7 +281,7 @@ func (vc *VC) applyContract(f *Frame, n *Node, in ssa.Instruction, fn *ssa.Funct
 	post := vc.bindEnv(fc, fn, args, results, st, pre)
 	post.what = env.what
 	for _, e := range fc.Ensures {
-		vc.assume(implies(n.Reach, post.evalBool(e.E)))
+		post.assumeClause(n.Reach, e.E)
 	}
 	vc.note("callee contract used: " + fc.Pkg + "::" + fc.Key)
 	vc.eng.noteContractUse(fc)
